@@ -120,6 +120,10 @@ func stalledClient(res *Result) error {
 			}
 			checkContents(obs, "main", want, fail)
 			checkChain(obs, "main", acked, fail)
+			// whatever the stalled client left behind, everything the lake lists must be readable
+			for _, p := range AuditReadable(eng.View(nil)) {
+				fail("C12:listed-but-unreadable", p, "everything listed is readable", p)
+			}
 		}
 	}
 	return nil
